@@ -32,11 +32,12 @@ MAX_ASSIGNMENTS = 24
 class Run:
     __slots__ = ("sc", "recs", "regw", "fslog", "fired", "sched", "digest", "capped",
                  "nsteps", "nswitch", "mid_switches", "overlaps", "sites", "explicit", "pool_obs",
-                 "pool_fold", "results")
+                 "pool_fold", "results", "barriers")
 
     def __init__(self):
         self.recs = {}
         self.results = {}
+        self.barriers = []
         self.regw = []
         self.fslog = []
         self.fired = []
@@ -116,8 +117,14 @@ def simulate(sc, full_digest=True) -> Run:
 
         world.fs.on_fire = on_fire
 
-        def restart():
-            world.drop_caches()
+        def barrier_action(kind):
+            def act():
+                run.barriers.append((sched.next_seq(), kind))
+                if "restart" in kind:
+                    world.drop_caches()       # what a new process would not have
+                if "heal" in kind:
+                    world.fs.faults.clear()   # faults stop here
+            return act
 
         def make(actor):
             name = actor["name"]
@@ -130,8 +137,7 @@ def simulate(sc, full_digest=True) -> Run:
                 for i, op in enumerate(ops):
                     f = op[0]
                     if f == "barrier":
-                        act = restart if (len(op) > 1 and op[1] == "restart") else None
-                        sched.barrier(a, act)
+                        sched.barrier(a, barrier_action(op[1] if len(op) > 1 and op[1] else "plain"))
                         results.append(None)
                         continue
                     sched.op_yield(a)
